@@ -107,6 +107,9 @@ EXT = 'F64.add_comm, F64.mul_comm, F64.fma_comm, rgt_f64_swap, rge_f64_swap, rmu
 BRIDGE_TAC = ('theorem bridge_UNAME : @NAME.NEW = @NAME := by\n  first | rfl | (funext; rfl)'
               ' | (funext; simp only [NAME.NEW, NAME, arithmetic.fma, RAdd.add, RMul.mul, F64.add_comm, F64.mul_comm, F64.fma_comm]; done)'
               ' | (funext; unfold NAME.NEW NAME; simp [' + EXT + ']; done)'
+              # loops and self-recursion are fuel-recursive definitions: induction on the fuel, the recursive call rewritten by the hypothesis
+              ' | (funext fuel; induction fuel with | zero => rfl | succ n ih => (funext; simp only [NAME.NEW, NAME, ih]; first | done | rfl))'
+              ' | (funext fuel; induction fuel with | zero => rfl | succ n ih => (funext; simp only [NAME.NEW, NAME, ih, ' + EXT + ']; first | done | rfl | grind))'
               ' | (funext; unfold NAME.NEW NAME; grind)'
               ' | (funext; unfold NAME.NEW NAME; simp only [' + EXT + ']; grind)'
               ' | (funext; unfold NAME.NEW NAME; repeat\' split <;> simp_all [' + EXT + '])')
